@@ -7,7 +7,7 @@ mod model;
 mod ops;
 mod snapshot;
 
-use check::{check, minimize, Case};
+use check::{check, check_long, minimize, minimize_long, Case, LongCase};
 use icyv::proptest::prelude::*;
 use icyv::serde_json::json;
 use icyv::{Engine, PartCfg};
@@ -53,6 +53,18 @@ fn cases(avoid: Vec<String>, flip_w: u32, steer: &Steer) -> BoxedStrategy<Case> 
         .boxed()
 }
 
+/// Long histories: the number of items sits around the caps a maintainer would pick for a history limit.
+fn long_cases(thorough: bool) -> BoxedStrategy<LongCase> {
+    let mut bands: Vec<BoxedStrategy<u32>> = vec![(60u32..=70).boxed(), (120u32..=130).boxed(), (250u32..=260).boxed(), (505u32..=520).boxed(), (1000u32..=1030).boxed(), (2040u32..=2060).boxed(), (4090u32..=4100).boxed()];
+    if thorough {
+        bands.push((9990u32..=10010).boxed());
+    }
+    let n = proptest::strategy::Union::new(bands);
+    (12u8..=16, 8u8..=10, any::<bool>(), any::<u64>(), n, prop::bool::weighted(0.8), prop::bool::weighted(0.7), prop::bool::weighted(0.5))
+        .prop_map(|(w, h, two_layers, seed, n, groups, whole, flips)| LongCase { w, h, two_layers, seed, n, groups, whole, flips })
+        .boxed()
+}
+
 /// Histories over the reduced alphabet `alpha` (r operations): all of length 1 and 2, and (thorough) all of length 3 over
 /// `alpha3` (the same alphabet without flip_x / flip_y, which cost 25-90 ms per call).
 fn enumerated_case(i: u64, per_doc: u64, alpha: &[Op], alpha3: &[Op]) -> Case {
@@ -95,6 +107,11 @@ fn main() {
          <class>|culprit=<OpKind>: prefixes of the history are re-executed on fresh editors (down and up all operation boundaries, twice); the shortest failing prefix gives the class; \
          culprit = its last operation for *_mismatch classes, the operation that pushed the failing step for *_err / *_panic; for redo_not_cleared the culprit is the new edit. \
          Non-trivial: the history changed the snapshot AND (two operations worked on the same layer index OR a layer add/remove/reorder/merge/paste/crop was followed by a cell edit). \
+         long_histories: a case = (small document 12x8..16x10 with 1 or 2 layers, seed, n, flags); item i of the history is a pure function of (seed, i) drawn from cheap, always \
+         successful operations (set_char 70%, atomic groups of 2..=5 set_char, move_layer, swap_char, caret / current-layer moves, set_ice_mode, set_palette_mode, resize_buffer with and \
+         without layers, flip_x/flip_y about 1 in 400); n from {60..70, 120..130, 250..260, 505..520, 1000..1030, 2040..2060, 4090..4100} (thorough: plus 9990..10010); oracle: the \
+         plain round, the number of registered undo steps against the model (one per step item, one per atomic group), can_redo() false after redoing everything, and a walk to the \
+         boundaries before the last item, in the middle and after the first item; key <class>|long_history; non-trivial: the document changed and >= 50 steps. \
          Distinct by case hash. While one of the findings C08-stamp-layer-down, C08-insert-delete-row-column-undo, C08-alpha-lock-undo, C08-shrunk-layer-hidden-content, \
          C08-change-font-slot is open, its precondition (stamp_layer_down; insert/delete row/column; alpha-locked layers; set_layer_size; change_font_slot) is generated in no part \
          (coverage.steered_away lists what was removed); witness and replay files are never steered.",
@@ -169,5 +186,8 @@ fn main() {
     // flip_x / flip_y rebuild the glyph flip tables of every font on each call (25-90 ms): own, smaller part
     let (st, av) = (steer.clone(), avoid_bulk.clone());
     eng.generated_min(PartCfg::new("flip_histories", 1_200, 20_000).shrink_budget(100), move || cases(av.clone(), 25, &st), check, |_| "-".to_string(), minimize);
+    // history length as its own dimension: few cases, 60..4100 (thorough: ..10000) cheap operations each
+    let thorough = eng.is_thorough();
+    eng.generated_min(PartCfg::new("long_histories", 300, 5_000).shrink_budget(40), move || long_cases(thorough), check_long, |_| "-".to_string(), minimize_long);
     eng.run();
 }
